@@ -285,6 +285,10 @@ def workspace_files(entries):
     for d in dirs:
         for f in DATA_FILES:
             files.append([rel(d, f), "data"])
+        # every package directory also has files no other directory has (the same glob string resolves differently per package)
+        tag = d.replace("/", "_") or "root"
+        files.append([rel(d, f"only_{tag}.txt"), "data"])
+        files.append([rel(d, f"src/only_{tag}.go"), "data"])
     for d, name, text in entries:
         files.append([rel(d, name), text])
     return files
@@ -501,6 +505,46 @@ def multi_part(ctx, tabs, rng, n, scratch):
             stats["files"] += len(entries)
             stats["large_cases"] = stats.get("large_cases", 0) + 1
             add_case(entries, files)
+    # NESTED packages whose globs overlap across the package boundary: the parent globs `sub/X` (and `**/X`), the child package `sub`
+    # globs `X` — the same files under two different package roots — in inputs and in exclude_inputs; plus siblings using one glob string
+    def nested_dto(rng, prefix, pats, names):
+        ts = []
+        for nm in names:
+            t = G.gen_target(rng, nm, names, faults=False)
+            k = rng.choice([1, 2, 3])
+            t["inputs"] = [prefix + x for x in rng.sample(pats, k)] + ([rng.choice(["a.txt", "missing.txt"])] if rng.random() < 0.3 else [])
+            t["excludes"] = [prefix + x for x in rng.sample(pats, rng.choice([1, 2]))] if rng.random() < 0.45 else []
+            ts.append(t)
+        return {"targets": ts, "aliases": [], "default_platforms": None}
+
+    CHILD_PATS = ["*.txt", "*", "**/*", "**/*.go", "[ab].txt", "?.txt", "{a,c}.*", "**/*.txt", "src/*.go", "only_*", "*.md"]
+    n_nested = max(12, n // 6)
+    for k in range(n_nested):
+        parent = rng.choice(["", "p", "lib", "app"]) if k else "app"
+        sub = rng.choice(["assets", "src", "q", "x-y"]) if k else "assets"
+        child = rel(parent, sub)
+        entries = []
+        layout = [(parent, sub + "/", ["pa", "pb"]), (child, "", ["ca", "cb"])]
+        if rng.random() < 0.4:
+            layout.append((rel(child, "deep"), "", ["da"]))              # grandchild: child globs deep/X, parent sub/deep/X
+            layout.append((child, "deep/", ["cd"]))
+            layout.append((parent, sub + "/deep/", ["pd"]))
+        if rng.random() < 0.4:
+            layout.append((rel(parent, "sib"), "", ["sa"]))              # sibling with the same glob strings as the child
+        if rng.random() < 0.3:
+            layout.append((parent, "", ["pr"]))                          # parent with root-level globs (`**/*.txt` reaches into the children)
+        by_dir = {}
+        for d, prefix, names in layout:
+            dto = nested_dto(rng, prefix, CHILD_PATS, names)
+            by_dir.setdefault(d, []).append(dto)
+        for d, dtos in by_dir.items():
+            dto = {"targets": [t for x in dtos for t in x["targets"]], "aliases": [], "default_platforms": None}
+            nm = rng.choice(["BUILD.json", "BUILD.yaml", "BUILD.star"])
+            entries.append((d, nm, render(dto, nm, rng), dto))
+        files = workspace_files([(d, nm, t) for d, nm, t, _ in entries])
+        stats["files"] += len(entries)
+        stats["nested_overlapping_globs"] = stats.get("nested_overlapping_globs", 0) + 1
+        add_case(entries, files)
     io = G.run_resilient(ctx, ireqs)
     if io is None:
         return False
@@ -536,6 +580,32 @@ def multi_part(ctx, tabs, rng, n, scratch):
             ctx.violation("the loaded graph depends on the worker count / arrival order",
                           {"kind": "oracle", "oracle": "worker-count independence", "files": files, "workers": list(WORKERS), "loaded": flat},
                           signature="load-depends-on-worker-count")
+        # oracle without the model: resolved inputs = literal inputs and, per glob, what doublestar itself resolves inside the package
+        # directory, minus everything the exclusion patterns resolve to there
+        if flat[0] != "ERR" and mfs[case] != "ERR":
+            loaded = {}
+            for k_, j_ in flat[0]:
+                if k_ == "t":
+                    o_ = json.loads(j_)
+                    loaded[tuple(o_["label"])] = o_["inputs"]
+            for fe in mfs[case]:
+                tab = {p_: m_ for p_, m_ in fe["globs"]}
+                pk = "" if fe["pkg"] == "." else fe["pkg"]
+                for t_ in fe["dto"].get("targets", []):
+                    if t_ is None or (pk, t_["name"]) not in loaded:
+                        continue
+                    ref = []
+                    for i_ in t_["inputs"]:
+                        ref += (tab.get(i_) or []) if any(c in i_ for c in "*?[{") else [i_]
+                    if t_["excludes"]:
+                        ex = {x for e_ in t_["excludes"] for x in (tab.get(e_) or [])}
+                        ref = [x for x in ref if x not in ex]
+                    got = loaded[(pk, t_["name"])]
+                    if got != ref:
+                        ctx.violation(f"target //{pk}:{t_['name']}: resolved inputs differ from the reference resolution of its globs inside its own package directory",
+                                      {"kind": "oracle", "oracle": "resolved inputs after excludes = reference glob resolution per package", "files": files,
+                                       "package": pk, "target": t_["name"], "inputs": t_["inputs"], "exclude_inputs": t_["excludes"],
+                                       "loaded_inputs": got, "reference_inputs": ref}, signature="resolved-inputs-differ-from-reference")
         mflats = mres.get(case, ["ERR"])
         stats["ok" if mflats[0] != "ERR" else "error"] += 1
         if any(m != flat[0] for m in mflats):
